@@ -275,7 +275,17 @@ def readAsWritten (j : Json) (stage1 : List FileResult) : Bool :=
         let w := sliceText text m.onewayRange.start.off m.onewayRange.stop.off
         !m.oneway || w == "oneway"
     | _, _ => true
-  sxOk && codesOk && onewayOk && positionsTrue j stage1
+  -- an explicit direction: its range holds exactly the keyword (an Error "on the direction keyword" sits on this range)
+  let dirOk := stage1.all fun fr =>
+    match fr.ast, texts.lookup fr.id with
+    | some a, some text => (Spec.methodsOf a).all fun m => m.args.all fun x =>
+        match x.direction with
+        | .in_ r => sliceText text r.start.off r.stop.off == "in"
+        | .out r => sliceText text r.start.off r.stop.off == "out"
+        | .inout r => sliceText text r.start.off r.stop.off == "inout"
+        | .unspecified => true
+    | _, _ => true
+  sxOk && codesOk && onewayOk && dirOk && positionsTrue j stage1
 
 def opValidate (prop : String) (j : Json) : R Verdict := do
   let impl ← fld j "impl"
@@ -757,6 +767,18 @@ def parseExtras (prop : String) (c : ParseCtx) (v : Verdict) : R Verdict := do
       && (match fr.ast with
           | some a => (Spec.PL.allRanges a).all (Spec.PL.rangeOk lc) && Spec.PL.nested a
           | none => true)
+    -- every diagnostic that validation adds sits on a range of the tree, or is the empty range at the start of a type's
+    -- name (where a missing direction is reported): a diagnostic that names a node lies on that node
+    let valOk := (zipById c.stage1 c.out).all fun (s, o) =>
+      match s.ast with
+      | none => true
+      | some a =>
+        let rs := Spec.PL.allRanges a
+        let tyStarts := ((Spec.methodsOf a).flatMap fun m => m.args.map fun x => x.argType.sym.start.off)
+        let added := o.diags.filter fun d => !(s.diags.contains d)
+        (Spec.PL.diagRanges added).all fun r =>
+          rs.contains r || (r.start.off == r.stop.off && tyStarts.contains r.start.off)
+    let wf := wf && valOk
     let mut exact := true
     match (j.getObjVal? "expect_spans").toOption with
     | some sj =>
